@@ -26,6 +26,7 @@ import (
 func init() { core.RegisterCommand("daemonstress", daemonStress) }
 
 type srun struct {
+	extreme bool // see realOrder
 	d       *hive.OrderedDaemon
 	mu      sync.Mutex
 	evs     []core.Ev
@@ -37,7 +38,7 @@ type srun struct {
 }
 
 func newSrun(scenario string, anchor bool) *srun {
-	return &srun{d: hive.New(), alive: map[int]bool{}, threads: map[int]chan struct{}{}, cfg: core.Ev{"scenario": scenario, "anchor": anchor}}
+	return &srun{extreme: anchor, d: hive.New(), alive: map[int]bool{}, threads: map[int]chan struct{}{}, cfg: core.Ev{"scenario": scenario, "anchor": anchor}}
 }
 
 func (r *srun) log(e core.Ev) {
@@ -97,7 +98,7 @@ func (r *srun) add(n, o int, mode string, delay time.Duration, retry bool) strin
 	r.log(core.Ev{"op": "addBegin", "k": k, "n": n, "o": o})
 	var res string
 	for {
-		res = errClass(r.d.BackgroundWorker(wname(n), r.handler(k, mode, delay), o))
+		res = errClass(r.d.BackgroundWorker(wname(n), r.handler(k, mode, delay), realOrder(o, r.extreme)))
 		if !retry || res == "ok" || res == "stopped" {
 			break
 		}
